@@ -4,7 +4,7 @@
    quantified: no law about them is used. *)
 From CSL Require Import Base.Prelude Cbor.Head Cbor.Item Cbor.ItemProofs
   Fixed.CborEv Fixed.CborEvProofs Fixed.DatumBytes Fixed.DatumBytesProofs Fixed.FixedTx Fixed.FixedTxProofs
-  Fixed.FuelProofs.
+  Fixed.FuelProofs Fixed.FixedBlock Fixed.FixedBlockProofs Fixed.WfPreservation Fixed.JudgeProofs.
 Local Open Scope N_scope.
 
 (* the byte-range capture (deserilized_with_orig_bytes) returns exactly the bytes its inner reader consumed *)
@@ -168,6 +168,79 @@ Proof.
 Qed.
 Print Assumptions C04_no_fuel_rejection.
 
+(* block level.  FixedTransactionBodies: the array is head ++ body_1 ++ ... ++ body_n ++ [break]; every kept
+   original_bytes is that slice (one well-formed item), every tx_hash is H of it *)
+Theorem C04_block_bodies : forall (H : bytes -> bytes) bs l rest, decode_fixed_bodies H bs = Ok (l, rest) ->
+  exists hd cl, bs = hd ++ concat (map fst l) ++ cl ++ rest /\ hd <> [] /\ (cl = [] \/ cl = [255]) /\
+                Forall (fun oh => snd oh = H (fst oh) /\ item_wf (fst oh) = true) l.
+Proof. exact decode_fixed_bodies_slices. Qed.
+Print Assumptions C04_block_bodies.
+
+(* FixedBlock: header and bodies are exact input slices, block_hash = H(header bytes) (the ledger's block hash) *)
+Theorem C04_block : forall (H : bytes -> bytes) bs b rest, decode_fixed_block H bs = Ok (b, rest) ->
+  exists hd bhd cl tl,
+    bs = hd ++ fb_header b ++ bhd ++ concat (map fst (fb_bodies b)) ++ cl ++ tl ++ rest /\
+    item_wf (fb_header b) = true /\ (cl = [] \/ cl = [255]) /\
+    Forall (fun oh => snd oh = H (fst oh) /\ item_wf (fst oh) = true) (fb_bodies b) /\
+    fb_hash b = H (fb_header b).
+Proof. exact fixed_block_slices. Qed.
+Print Assumptions C04_block.
+
+Theorem C04_versioned_block : forall (H : bytes -> bytes) bs era b rest,
+  decode_versioned_block H bs = Ok ((era, b), rest) ->
+  era < 4294967296 /\
+  exists pre inner post, bs = pre ++ inner ++ post ++ rest /\ pre <> [] /\
+    decode_fixed_block H (inner ++ post ++ rest) = Ok (b, post ++ rest) /\ (post = [] \/ post = [255]) /\
+    fb_hash b = H (fb_header b) /\
+    Forall (fun oh => snd oh = H (fst oh) /\ item_wf (fst oh) = true) (fb_bodies b).
+Proof. exact versioned_block_inner. Qed.
+Print Assumptions C04_versioned_block.
+
+Theorem C04_block_no_fuel_rejection :
+  (forall (H : bytes -> bytes) bs, decode_fixed_bodies H bs <> OutOfFuel) /\
+  (forall (H : bytes -> bytes) bs, decode_fixed_block H bs <> OutOfFuel) /\
+  (forall (H : bytes -> bytes) bs, decode_versioned_block H bs <> OutOfFuel).
+Proof. exact (conj decode_fixed_bodies_noof (conj (fun H => dec_block_noof H false) decode_versioned_block_noof)). Qed.
+Print Assumptions C04_block_no_fuel_rejection.
+
+(* the block hash as computed before /repo c6f013f (over the whole block) is not the hash of the header *)
+Theorem C04_block_hash_old_refuted :
+  exists b, decode_fixed_block_old Hid tiny_block = Ok (b, []) /\ fb_header b = [128] /\
+            fb_hash b = Hid tiny_block /\ fb_hash b <> Hid (fb_header b) /\
+            exists b', decode_fixed_block Hid tiny_block = Ok (b', []) /\ fb_hash b' = Hid (fb_header b') /\
+                       fb_bodies b' = [([160], Hid [160])].
+Proof. exact old_block_hash_refuted. Qed.
+Print Assumptions C04_block_hash_old_refuted.
+
+(* well-formedness is preserved through the operations: input a string of bytes (< 256, shorter than 2^64) whose
+   kept witness slices are well-formed items; any operations other than set_witness_set whose added / signed
+   witnesses are byte strings; then the witness set written back is one well-formed definite map holding
+   exactly the written entries *)
+Theorem C04_witness_map_wf_after_ops :
+  forall (H : bytes -> bytes) (sign_vkey : bytes -> bytes -> vkw) (sign_boot : bool -> bytes -> bytes -> bw),
+  (forall k h, vkw_ok (sign_vkey k h) = true) -> (forall d k h, bw_ok (sign_boot d k h) = true) ->
+  forall bs tx rest ops,
+  good bs -> decode_fixed H bs = Ok (tx, rest) -> raws_wf (ft_wits tx) -> Forall op_ok ops ->
+  N.of_nat (length bs + length ops) < two64 ->
+  let w' := ft_wits (run_ops H sign_vkey sign_boot ops tx) in
+  item_wf (encode_wits w') = true /\ map_slices (encode_wits w') = Some (entries w', []).
+Proof. exact fixed_witness_map_wf_after_ops. Qed.
+Print Assumptions C04_witness_map_wf_after_ops.
+
+(* the judge that is run on the implementation's observations accepts the model's own observation: every input
+   on which the generic and the library-mirroring reading coincide, every operation list without
+   set_witness_set, written witness set well-formed (C04_witness_map_wf_after_ops) *)
+Theorem C04_judge_accepts_model : forall sv sb bs tx r ops,
+  same_reading bs = true -> decode_fixed (fun b => b) bs = Ok (tx, r) ->
+  Forall not_set_wits ops ->
+  wits_wf (ft_wits (run_ops (fun b => b) sv sb ops tx)) ->
+  judge bs (op_flags sv sb ops tx) (model_obs (run_ops (fun b => b) sv sb ops tx)) = VHolds.
+Proof. exact judge_accepts_model. Qed.
+Print Assumptions C04_judge_accepts_model.
+
 Check sample_tx_accepted.
+Check same_reading_example.
+Check wf_after_ops_premises.
+Check versioned_block_example.
 Check sig_ops_example.
 Check datum_example.
